@@ -14,6 +14,21 @@ class AnalysisError(Exception):
     unknown construct).  Reported as ANALYSIS-ERROR, exit 2."""
 
 
+class PlumbingViolation(AnalysisError):
+    """A command-line option does not reach the Server at all (no constructor
+    slot is fed from it).  Carries the bootstrap model so that the checks of
+    the properties that are about this option can report it as a violation;
+    every other check has no verdict."""
+
+    def __init__(self, model, role, key, detail):
+        AnalysisError.__init__(self, "configuration plumbing: option %s does not reach the "
+                               "server (%s)" % (key, detail))
+        self.model = model
+        self.role = role
+        self.key = key
+        self.detail = detail
+
+
 REPO = os.environ.get("VERIF_REPO", "/repo")
 PKG = "src/wormhole_mailbox_server"
 MODULES = ["server", "server_websocket", "server_tap", "database", "web",
